@@ -1,15 +1,45 @@
 import Thanos.Model.LazyReader
+import Thanos.Lemmas.LazyReader
 import Thanos.Generated.Facts
 /-
   C16 — Lazy index headers stay correct under concurrent idle unloading.
+
+  The theorems quantify over every number and mix of threads (readers calling Reader methods,
+  unloaders = unloadIfIdleSince / Close / the pool's closeIdleReaders, idle probes) and over every
+  schedule (list of thread ids) of the lock skeleton of lazy_binary_reader.go.  The skeleton is the
+  one the extractor finds in the source (facts below).
 -/
 namespace Thanos.LazyReader
 
-/-- C16 at full strength for the model: whatever threads there are (any number of readers,
-    unloaders, probes) and whatever the schedule is, no call dereferences a nil reader, uses a
-    closed header, or hands out an answer that is read after its header was closed. -/
+/-- C16 at full strength for the model: whatever threads there are and whatever the schedule is,
+    no call dereferences a nil reader, uses a closed header, or hands out an answer that is read
+    after its header was closed.  A call ends with an answer of a header that was loaded and open
+    during the whole call, or with the clean error errUnloadedWhileLoading. -/
 def C16_full (recheckNil alias : Bool) : Prop :=
   ∀ (kinds : List Kind) (schedule : List Nat), (run recheckNil alias (init kinds) schedule).bad = false
+
+/-- The code as it is now (load re-checks `r.reader == nil`; every answer is a value or a copy):
+    holds for all thread sets and all schedules. -/
+theorem C16_no_use_after_close : C16_full true false :=
+  fun kinds schedule => (inv_run (inv_init kinds) schedule).bad
+
+/-- reader/writer exclusion of the modelled RWMutex in every reachable state: the holder of the
+    write lock (a loading reader or an unloader) is the only lock holder -/
+theorem C16_rw_excl (kinds : List Kind) (schedule : List Nat) (i j : Nat) (ti tj : Thread)
+    (hi : (run true false (init kinds) schedule).threads[i]? = some ti)
+    (hj : (run true false (init kinds) schedule).threads[j]? = some tj) (hij : i ≠ j)
+    (hw : holdsW ti.pc = true) : holdsW tj.pc = false ∧ holdsR tj.pc = false :=
+  (inv_run (inv_init kinds) schedule).excl i j ti tj hi hj hij hw
+
+/-- in every reachable state the loaded reader is not closed, and a thread inside
+    `r.reader.X()` is using exactly the loaded reader -/
+theorem C16_using_loaded (kinds : List Kind) (schedule : List Nat) (i : Nat) (t : Thread) (g : Nat)
+    (hi : (run true false (init kinds) schedule).threads[i]? = some t) (hu : t.pc = .inUse g) :
+    (run true false (init kinds) schedule).reader = some g ∧
+    (run true false (init kinds) schedule).closed.contains g = false := by
+  have hI := inv_run (inv_init kinds) schedule
+  have hr := (hI.known i t hi).2.1 g hu
+  exact ⟨hr, hI.shared.open_ g hr⟩
 
 /-- F16: while LabelValues returned strings that point into the mmapped header, one reader and
     one unloader suffice: the reader loads, answers and releases the read lock; the unloader
@@ -27,5 +57,49 @@ theorem C16_norecheck_false : ¬ C16_full false false := by
   have := h [.reader, .unloader true] [0, 0, 0, 0, 0, 1, 1, 1, 0, 0, 0]
   revert this
   decide
+
+/-! ### regenerated facts: the lock skeleton in the source is the one modelled -/
+
+/-- every Reader method: RLock, deferred RUnlock, load(), then the call on r.reader
+    (PCs idle → rl1 → … → fast → inUse → idle) -/
+theorem C16_method_skeleton_fact :
+    Thanos.Facts.lazyMethodSkeletons =
+      ["IndexVersion: RLock defer( RUnlock ) load use",
+       "PostingsOffsets: RLock defer( RUnlock ) load use",
+       "PostingsOffset: RLock defer( RUnlock ) load use",
+       "LookupSymbol: RLock defer( RUnlock ) load use",
+       "LabelValues: RLock defer( RUnlock ) load use",
+       "LabelNames: RLock defer( RUnlock ) load use"] := by decide
+
+/-- load(): first test (rl1), RUnlock (→ wantW), Lock (→ w), [deferred: Unlock (→ wantR2), RLock
+    (→ recheck), the nil re-check], second test, NewBinaryReader, assignment (w → wDone) -/
+theorem C16_load_skeleton_fact :
+    Thanos.Facts.lazyLoadSkeleton =
+      ["if(r.reader != nil)", "RUnlock", "Lock", "defer(", "Unlock", "RLock",
+       "if(returnErr == nil && r.reader == nil)", ")", "if(r.reader != nil)", "NewBinaryReader",
+       "reader=reader"] := by decide
+
+/-- unloadIfIdleSince(): Lock (→ uW), deferred Unlock, nil test, Close, `r.reader = nil` (→ uDone) -/
+theorem C16_unload_skeleton_fact :
+    Thanos.Facts.lazyUnloadSkeleton =
+      ["Lock", "defer(", "Unlock", ")", "if(r.reader == nil)", "Close", "reader=nil"] ∧
+    Thanos.Facts.lazyIsIdleSkeleton = ["RLock", "RUnlock"] := by decide
+
+/-- the one method whose BinaryReader result points into the mmapped header (LabelValues) does
+    not hand that result out as it is (it returns copies): `alias = false` is the code -/
+theorem C16_no_alias_fact : "LabelValues" ∉ Thanos.Facts.lazyDirectReturns := by decide
+
+/-! ### non-vacuity: the schedules of the theorems really reach the interesting states -/
+
+-- a reader is unloaded between its write unlock and its second read lock: clean error, no use
+example : (run true false (init [.reader, .unloader true]) [0, 0, 0, 0, 0, 1, 1, 1, 0, 0, 0, 0]).log
+    = [(1, .unloaded 0), (0, .errUnloaded)] := by decide
+-- an unloader is blocked while a reader holds the read lock, the reader answers
+example : (run true false (init [.reader, .unloader true]) [0, 0, 0, 0, 0, 0, 1, 1, 1, 0, 0, 0]).log
+    = [(0, .ok 0)] := by decide
+-- reload after unload gives a new generation
+example : (run true false (init [.reader, .unloader true])
+    [0, 0, 0, 0, 0, 0, 0, 0, 0, 1, 1, 1, 0, 0, 0, 0, 0, 0, 0, 0, 0]).log
+    = [(0, .ok 0), (1, .unloaded 0), (0, .ok 1)] := by decide
 
 end Thanos.LazyReader
